@@ -39,7 +39,8 @@ CHECKS = {
              "compares every public table, get_all_parameters/get_all_states, integrate against TLC's integers on both sides and "
              "bit-identical gradients at the copy point; SWC cells (radius functions) and synaptic networks with trainables, "
              "groups and clamps are copied, compared, differentiated and edited as well.",
-        note="Trusted: TLC; histories through View.delete_trainables are avoided (known findings of C19)."),
+        note="Trusted: TLC. The digest of the scenarios includes the structure arrays (ncomp_per_branch, parents, xyzr) and the original is "
+             "re-simulated after the copy was edited. Known finding F20 (listed for C18 too) is the only history the check steps around."),
     "C12": dict(
         technique="metamorphic re-runs inside the TLA+ solver model (MC_Hines: Isolate a cell of a network, swap sibling leaf "
                   "branches; invariant MetamorphicAgrees over Z_p, parameters keyed by compartment labels), model-checked by TLC; "
@@ -49,7 +50,8 @@ CHECKS = {
              "of the cell alone and that exchanging sibling branches only permutes the solution. On the real code: assembled tables "
              "keep every constituent's parameters/states/channels under contiguous indices (absent channels False/NaN, shared "
              "names vt/eK), each cell of a network simulates as alone on every accepting backend, sibling order only permutes, "
-             "one-branch cell == branch, one-compartment branch == compartment.",
+             "one-branch cell == branch, one-compartment branch == compartment; a heterogeneous assembly registers the union of its "
+             "constituents' channels / current names with clean boolean indicator columns and simulates each cell as it simulates alone.",
         note="Trusted: TLC; Schwartz-Zippel; backends that refuse a network are not compared."),
     "C13": dict(
         technique="TLA+ state machine of set_ncomp call sequences (SetNcomp.tla: the abstract state is the shape, groups are "
@@ -70,7 +72,7 @@ CHECKS = {
         category="model_checking", design="4/C08",
         text="SampleKActsInStepK, ClampHolds, ColumnKIsAfterKSteps are TLC invariants; the real integrate must return TLC's integer "
              "matrices for every (input length, t_max, second stimulus, clamp) configuration incl. data_stimulate == stimulate and "
-             "manual stepping; on networks every recorded synaptic state / current and every clamped synaptic state must be that of "
+             "manual stepping and data_clamp == clamp; on networks every recorded synaptic state / current and every clamped synaptic state must be that of "
              "the edge it was requested for (rows in the order record() was called). Row order / de-duplication of recordings and "
              "the external-input tables are additionally decided by C19's projection compare.",
         note="Trusted: TLC; exact-binary dt; probe mechanisms make every contribution a distinguishable integer."),
@@ -83,7 +85,11 @@ CHECKS = {
              "<= 2 edits through type / k-th-edge views TLC checks CreationOrderIrrelevant, ZeroWeightIsIsolation, "
              "OnlyPostCompartmentsMove; replayed states must show each synapse reading its pre compartment, injecting into its post "
              "compartment scaled by the post area (K differs per compartment), fan-in adding, and parameters reaching exactly the "
-             "selected synapses, under thomas and jax.sparse (thorough: all three backends).",
+             "selected synapses, under thomas and jax.sparse (thorough: all three backends). The probe network has specific capacitances "
+             "1, 2, 0.5, 1, 4, 0.25 (a synaptic current acts like the same nA injected), is replayed as three cables and as two branched "
+             "cells, edits also go through node-selection views holding both synapse types and through single-compartment views, "
+             "delete_recordings through views removes exactly the recordings of the synapses in view, and weight edits go through "
+             ".set, data_set or make_trainable.",
         note="Trusted: TLC; probe synapses; the replay is a deterministic 1/SAMPLE hash sample of the explored histories."),
     "C20": dict(
         technique="TLA+ specification of the connectivity builders with the random draws as nondeterministic choice "
@@ -134,7 +140,8 @@ CHECKS = {
         category="model_checking", design="4/C07",
         text="For every configuration TLC supplies the expected integer recordings and the state at the last returned time point; "
              "integrate(return_states=True), continuation with all_states and stepping with build_init_and_step_fn must reproduce "
-             "them. AS_CODED_RET=TRUE is re-run in every check to show that TLC finds F6 from the design (non-vacuity).",
+             "them. AS_CODED_RET=TRUE is re-run in every check to show that TLC finds F6 from the design (non-vacuity). The "
+             "composition law is also instantiated on a float model whose channel reads a membrane current (whole run == hand-over).",
         note="Known finding F6 (returned state with prod(checkpoint_lengths) > steps) is listed in known_findings.json."),
     "C03": dict(
         technique="TLC-executed abstract interpreter (ExprAbs.tla: affine forms + sign/finiteness domain, partition of the "
@@ -183,7 +190,9 @@ CHECKS = {
         text="Eff(k) (table column overridden by the trainables on exactly their groups' rows) is part of the abstract state; "
              "TrainablesTouchOnlyTheirRows / TrainablesReachTheirRows / WriteStoresSimulated are checked by TLC; every replayed "
              "transition compares get_all_parameters/get_all_states with Eff, and every Set transition is also performed via "
-             "data_set and via make_trainable and simulated.",
+             "data_set and via make_trainable and simulated. Second stage (synaptic parameters): every weight-edit history of NetSim.tla "
+             "is replayed through .set, data_set or make_trainable against the same specification state (views: type, k-th edge, "
+             "node selections holding both synapse types).",
         note="Trusted: TLC; value tokens {1,2}; sharing by module/branch/compartment; views include ones that exclude the "
              "module's last compartment."),
     "C11": dict(
@@ -195,7 +204,9 @@ CHECKS = {
              "three irregular modules (all chains of any length), checks EdgesAmongRows, DenseLocal, NonEmpty and Narrowing, and "
              "every transition of the graph is executed on the real jaxley with rotating index forms (int, list, array, range, "
              "slice, mask, all); every selector the specification disables must raise; iteration and lazy [] are compared with "
-             "the method form.",
+             "the method form. ViewWrites.tla (second sentence of the property): two HELD views with arbitrary row sets, every sequence of "
+             "<= 3 add_to_group / set / record / stimulate calls through them; a hash sample is replayed with the views created "
+             "before the calls.",
         note="Trusted: TLC, the dot parser. Bounded to 3 modules and index sets over 0..2; write confinement of mutating "
              "calls is decided by C19/C10 (projection compare after every call)."),
     "C01": dict(
